@@ -97,6 +97,13 @@ def rbUpd (st : St) (k : Nat) (f : RBObj → Out RBObj) : Out (St × String) :=
     let b ← f (st.rbs[k]?.getD {})
     pure ({ st with rbs := st.rbs.setIfInBounds k b }, "ok")
 
+/-- `tickit_mockterm_get_display_text(buffer of exactly len bytes, len, …)` over the cells it walks. -/
+def mdispResult (st : St) (len : Int) (cells : List (List UInt8)) : Out (St × String) :=
+  let c := displayText (len ≥ 0) len.toNat cells
+  match showBuffer len c with
+  | none => .ub .mem "tickit_mockterm_get_display_text: store beyond the caller's buffer"
+  | some s => pure (st, s!"ret={c.ret} buf={s}")
+
 /-- Drop every reference the application still holds (the harness's `drop_all`): windows from the highest
     handle to the root, then pens, strings, buffers, the terminal last. -/
 def dropAll (cfg : Cfg) (st : St) : Out St := do
@@ -311,11 +318,7 @@ def step (cfg : Cfg) (st : St) : Op → Out (St × String)
               | some s => pure (st, s!"active=1 cols={ncols} infolen={c.ret} ret={ulen} buf={s}")
   | .mdisp len _line _col width =>
     if !heldT st then skipR st
-    else
-      let c := displayText (len ≥ 0) len.toNat (List.replicate width.toNat [0x20])
-      match showBuffer len c with
-      | none => .ub .mem "tickit_mockterm_get_display_text: store beyond the caller's buffer"
-      | some s => pure (st, s!"ret={c.ret} buf={s}")
+    else mdispResult st len (List.replicate width.toNat [0x20])     -- a screen nothing was printed on
   | .«end» => do
     let st ← dropAll cfg st
     pure (st, "end")
